@@ -151,7 +151,7 @@ def check(pid, tier, only=None, jobs=None, seed=0, quiet=False):
                                          'analyses': [{'kind': 'main', 'post': post, 'timeout': timeout}]}))
         # twins + findings run over the first partition set as a whole? -> use each partition's label 'all' if unsplit
         tw_t = ob.twin_timeout or max(20, min(60, timeout))
-        plabels = [l for l, _ in ob.partitions(tier)]
+        plabels = ['all'] + [l for l, _ in ob.partitions(tier) if l != 'all']
         # Witness search: one process per partition would multiply work; instead search partitions in order
         # inside one job list (the runner stops asking once every tag has a witness).
         joblist.append(('twins', ob, {'module': modname, 'obligation': ob.name, 'tier': tier, 'partition': None,
